@@ -246,6 +246,12 @@ static void world_gen(Rng &r, Plan &p, Tier tier, uint64_t index)
 			s.set("exsel", (int64_t)r.below(64));
 			s.set("clear", r.chance(1, 6) ? 1 : 0);
 			push(s);
+		} else if (roll < 31 && e > 2) {
+			// a new key owner joins in mid-run: its keys are imported after whatever happened before
+			// (rejected tokens, malformed documents) on the same thread
+			Step o = gen_owner(r, bias);
+			o.set("late", 1);
+			push(o);
 		} else if (roll < 33 && bias != "C05" && bias != "C08") {
 			// the owner retires its key: key sets freed, a new key of the same kind loaded, the verifiers
 			// that held the old key re-pointed to the new one; old tokens stay in the pool and come back
@@ -331,6 +337,7 @@ struct Party {
 	int eff_explicit = JWT_ALG_NONE;
 	bool reject_all = false; // callback returns error
 	bool pin_dontcare = false;
+	std::vector<int> refs; // owners whose key items the object or its callback context may point to
 	int expect = 0;       // checker: bit0 iss, bit1 sub, bit2 aud expectations (C06 bias)
 	int64_t exp_off = 0;  // issuer: exp offset
 	// issuer content
@@ -347,6 +354,7 @@ struct Msg {
 	int issuer = -1;
 	int prov = 0;
 	int64_t issued_at = 0;
+	int64_t exp_at = 0; // builder tokens with an exp offset: the instant from which every checker must reject them
 	bool unsigned_tok = false;
 };
 
@@ -637,6 +645,11 @@ static Owner make_owner(World &w, const Step &s, uint64_t salt)
 		ctx.count("probe:jwk_ec_minimal_length_coordinates");
 	// the empty oct key is outside C08's quantifier (1-512 bytes); libjwt refuses it
 	bool in_domain = !(o.kind == 0 && o.truth->oct.empty());
+	if (in_domain && !o.ok && (s.I("late") || salt != s.uid))
+		// keys must stay importable and usable whatever provider is selected and whatever either provider did before
+		ctx.violation("C12", "key-import-depends-on-history", strf("%s:%s", o.kind == 0 ? "oct" : o.kind == 1 ? "RSA" : o.kind == 2 ? "EC" : "OKP", prov_name((int)s.I("loadprov") ? 1 : 0)),
+			      strf("well-formed key %s could not be imported in mid-run with %s selected: %s / %s", o.truth->label.c_str(), prov_name((int)s.I("loadprov") ? 1 : 0),
+				   o.priv.item ? jwks_item_error_msg(o.priv.item) : "(no item)", o.pub.item ? jwks_item_error_msg(o.pub.item) : "(no item)"));
 	if (in_domain) {
 		opts.priv = true;
 		check_c08(w, o, o.priv, opts, "private", s, jpriv_plain);
@@ -734,6 +747,10 @@ static void do_party(World &w, const Step &s, bool checker)
 	int malg = JWT_ALG_NONE;
 	int alg_from_owner = -1; // builder: the owner whose alg attribute was pre-resolved into config.alg
 
+	if (rd.pre)
+		p.refs.push_back(oi);
+	if (rd.cb == 2 || rd.cb == 3)
+		p.refs.push_back(rd.other ? oi2 : oi);
 	if (rd.pre) {
 		const jwk_item_t *item = item_of(o);
 		int key_alg = o->key_alg;
@@ -917,6 +934,9 @@ static void do_reconfig(World &w, const Step &s)
 		v.eff_explicit = E;
 		v.form_priv = form_priv;
 		v.route = item ? 0 : 6;
+		v.refs.clear(); // setkey replaced whatever the checker pointed to
+		if (item)
+			v.refs.push_back(oi);
 	} else
 		jwt_checker_error_clear(v.chk); // previous configuration stays in force
 }
@@ -930,14 +950,15 @@ static void do_rotate(World &w, const Step &s)
 		return;
 	size_t oi = (uint64_t)s.I("owner") % w.owners.size();
 	Owner &old = w.owners[oi];
+	auto refers = [&](const Party &p) { return std::find(p.refs.begin(), p.refs.end(), (int)oi) != p.refs.end(); };
 	for (auto &p : w.issuers)
-		if (p.owner == (int)oi || (p.cb && p.cb->key && (p.cb->key == old.priv.item || p.cb->key == old.pub.item))) {
-			ctx.logf("ROTATE skipped (an issuer holds the key)");
+		if (refers(p)) {
+			ctx.logf("ROTATE skipped (an issuer points to the key)");
 			return;
 		}
 	for (auto &p : w.verifiers)
-		if ((p.owner == (int)oi && ROUTES[p.route].cb != 0) || (p.cb && p.cb->key && (p.cb->key == old.priv.item || p.cb->key == old.pub.item))) {
-			ctx.logf("ROTATE skipped (a verifier's callback holds the key)");
+		if (refers(p) && (ROUTES[p.route].cb != 0 || p.owner != (int)oi || !p.has_key)) {
+			ctx.logf("ROTATE skipped (a verifier points to the key in a way setkey alone cannot re-point)");
 			return;
 		}
 	std::vector<Party *> holders;
@@ -976,6 +997,7 @@ static void do_rotate(World &w, const Step &s)
 			p->eff_explicit = JWT_ALG_NONE;
 			p->key_alg = JWT_ALG_NONE;
 			p->route = 6;
+			p->refs.clear();
 		}
 	}
 	// tokens of the retired key stay in the pool: they no longer belong to this owner's current key
@@ -1070,6 +1092,7 @@ static void do_issue(World &w, const Step &s)
 		m.issuer = ii;
 		m.prov = p.prov;
 		m.issued_at = t0;
+		m.exp_at = p.exp_off > 0 ? t0 + p.exp_off : 0;
 		m.unsigned_tok = !p.has_key;
 		w.pool.push_back(m);
 		// ECDSA short-coordinate probes
@@ -1260,12 +1283,13 @@ static void judge_delivery(World &w, Party &v, int vi, const std::string &tok, c
 		}
 	} else {
 		// C05 completeness: pristine token of owner O with alg A to a verifier holding O's key pinned to A
-		if (pristine && src && !src->unsigned_tok && !v.expect && v.has_key && v.owner == src->owner && adm && pa && pa->id == src->alg && k && key_family_ok(*k, *pa) &&
+		bool live = !(src && src->exp_at && g_clock.now() >= src->exp_at); // not expired at the verifier's instant
+		if (pristine && live && src && !src->unsigned_tok && !v.expect && v.has_key && v.owner == src->owner && adm && pa && pa->id == src->alg && k && key_family_ok(*k, *pa) &&
 		    key_strength_ok(*k, *pa) && provider_supports(v.prov, *pa, *k) && !v.reject_all)
 			ctx.violation("C05", "valid-token-rejected", strf("%s:%s:%s->%s", pa->name, k->label.c_str(), src->from_builder ? prov_name(src->prov) : "reference", prov_name(v.prov)),
 				      strf("pristine %s token from %s for key %s rejected by %s verifier: '%s' token=%s", pa->name, src->from_builder ? prov_name(src->prov) : "the reference signer",
 					   k->label.c_str(), prov_name(v.prov), vo.msg.c_str(), show(tok, 300).c_str()));
-		if (pristine && src && src->unsigned_tok && !v.expect && !v.has_key && v.eff_explicit == JWT_ALG_NONE && !v.reject_all)
+		if (pristine && live && src && src->unsigned_tok && !v.expect && !v.has_key && v.eff_explicit == JWT_ALG_NONE && !v.reject_all)
 			ctx.violation("C03", "checker-nokey-rejects-none", "pristine-none",
 				      strf("checker without key rejected a pristine alg-none token: '%s' %s", vo.msg.c_str(), show(tok, 200).c_str()));
 	}
